@@ -23,7 +23,7 @@ ASSUMPTIONS = ["A-ENGINE", "A-SPEC", "A-BUILTIN", "termination not verified", "h
                "the hdpubkey_map passed to describe_basic_multisig is the reviewer's trusted wallet description"]
 EXPLANATION = ("Review summary of multisig PSBTs.  Deductive part: Tx.fee on a 2-in/2-out transaction with symbolic amounts equals "
                "sum(inputs) - sum(outputs), hence spend + change + fee == inputs.  The labelling of change and the rejection clauses are "
-               "decided by executable contracts: describe_basic_multisig is run on honest PSBTs of every m-of-n wallet (n <= 4, P2SH and "
+               "decided by executable contracts: describe_basic_multisig is run on honest PSBTs of every m-of-n wallet (n <= 4, P2SH, "
                "P2WSH, 1..3 inputs/outputs, change in every position or absent) and on each entry of a tampering catalogue (about 45 single "
                "alterations of outputs, scripts, derivations, UTXOs and amounts); the result must equal, or be more conservative than, "
                "spec.review of the same bytes, where is_change is the predicate of the property statement.")
